@@ -62,3 +62,167 @@ reg('C18', plan=plan_c18, level='proof', min_obligations=30,
     assumptions=['CBMC float model is IEEE-754 binary32/binary64 round-to-nearest-even', 'cfg!(target_feature="fma") is false in the Kani build (unfused branch verified)'],
     not_decided=['cbrtf within 1 ulp', 'powf relative error 2.5e-4+8e-6|y|', 'expf relative error 1e-5', 'cbrtf oddness for all exponents (bounded only)'],
     design_ref='DESIGN.md §5 C18')
+
+# ------------------------------------------------------------------------------------------- shared Kani pieces (yuvxyb crate)
+YR = ('src/yuv_rgb.rs', 'k_yuv_rgb.rs', 'verif_kani_yuv_rgb')
+def depth_names(prefix, tier, storage=('u16', 'u8'), quick_depths=(8, 10)):
+    depths = range(8, 17) if tier == 'thorough' else quick_depths
+    out = []
+    for st in storage:
+        for bd in (depths if st == 'u16' else [8]):
+            for rg in ('lim', 'full'):
+                out.append(f'{prefix}_{st}_b{bd:02d}_{rg}')
+    return out
+KC = ('src/yuv_rgb/color.rs', 'k_color.rs', 'verif_kani_color')
+MATS = ['bt709', 'bt470m', 'bt470bg', 'st170m', 'st240m', 'bt2020ncl', 'ycgco']
+
+import random
+def sweep_selection(kind, tier, seed, n_quick=12, n_thorough=60):
+    """Seed-selected set of bounded per-plane sweeps: (matrix idx, depth, full, plane, companion a, companion b)."""
+    rnd = random.Random(seed * 7919 + (1 if kind == 'decode' else 2))
+    out, seen = [], set()
+    n = n_thorough if tier == 'thorough' else n_quick
+    depths = [8, 10, 12, 16] if tier == 'thorough' else [8, 10]
+    while len(out) < n:
+        mi = rnd.randrange(7); bd = rnd.choice(depths); full = rnd.random() < 0.5; plane = rnd.randrange(3)
+        k = 1 << (bd - 8); mx = (1 << bd) - 1
+        lum = [0, 16 * k, 128 * k, 235 * k, mx]; chr_ = [0, 16 * k, 128 * k, 240 * k, mx]
+        pools = [lum, chr_, chr_]; others = [p for i, p in enumerate(pools) if i != plane]
+        a = rnd.choice(others[0]); b = rnd.choice(others[1])
+        key = (mi, bd, full, plane, a, b)
+        if key in seen: continue
+        seen.add(key); out.append(key)
+    return out
+def sweep_harness_text(kind, sel):
+    fn = 'sweep_decode' if kind == 'decode' else 'sweep_roundtrip'
+    names, txt = [], ''
+    for (mi, bd, full, plane, a, b) in sel:
+        nm = f'{fn}_m{mi}_b{bd:02d}_{"full" if full else "lim"}_p{plane}_{a}_{b}'
+        names.append(nm)
+        txt += f'#[kani::proof] #[kani::unwind(4)] fn {nm}() {{ {fn}({mi}, {bd}, {str(full).lower()}, {plane}, {a}, {b}); }}\n'
+    return names, txt
+
+# ------------------------------------------------------------------------------------------- C01
+BITPRECISE = 'CBMC float model is IEEE-754 binary32/binary64 round-to-nearest-even; cfg!(target_feature="fma") false in the Kani build (mul_add calls in the kernels are fused regardless)'
+def plan_c01(tier, seed):
+    hs = [H(n, domain='all codes <= 2^n-1', desc='|to_f32_luma(c) - clamp((c-black)/range,0,1)| <= 1e-6 (H.273 black/range from the statement)') for n in depth_names('norm_luma', 'thorough')]
+    hs += [H(n, domain='all codes <= 2^n-1', desc='|to_f32_chroma(c) - clamp((c-2^(n-1))/range,-.5,.5)| <= 1e-6') for n in depth_names('norm_chroma', 'thorough')]
+    hs += [H(f'decode_{m}', domain='input-free', desc='every f32 entry of the real get_yuv_to_rgb_matrix within 2e-7 of the H.273 closed form (f64)') for m in MATS]
+    sel = sweep_selection('decode', tier, seed)
+    names, txt = sweep_harness_text('decode', sel)
+    hs += [H(n, bounded='one plane symbolic over all codes, other two fixed at the companions in the name', domain=n,
+             desc='real to_f32_* + inv.mul_arr vs H.273 closed form in f64, 3e-6') for n in names]
+    return {'verus': [('u_matrix', {}), ('u_color', {})],
+            'kani': [{'crate_dir': '', 'inject': [YR, KC], 'append': [('k_color.rs', txt)], 'harnesses': hs}]}
+reg('C01', plan=plan_c01, level='proof', min_obligations=400,
+    title='YUV->RGB decoding equals the H.273 definition',
+    technique='Verus: real color.rs/matrix.rs under exact-field contracts (decode = inverse of the H.273 encode matrix, Kr/Kb table); Kani: bit-precise normalisation of every code and input-free evaluation of all 7 decode matrices; bounded per-plane sweeps for the 3x3 rounding',
+    text='Proof in three contract layers on the real code: (1) Verus, exact reals: get_yuv_constants is the H.273 Kr/Kb table, the forward matrix is the H.273 encode matrix for symbolic Kr,Kb, '
+         'get_yuv_to_rgb_matrix is its inverse (inv*fwd = I proved for every invertible matrix), mul_arr is the exact product; (2) Kani, bit-precise and complete: every code of every depth 8..16, both ranges, '
+         'u8/u16 normalises to clamp((c-black)/range) within 1e-6, and each f32 entry of all 7 real decode matrices is within 2e-7 of the closed form; (3) bounded sweeps of the real composite per plane against the closed form (3e-6). '
+         'Not proved: that f32 rounding of the 3-term products stays within 3e-6 for ALL triples simultaneously (only swept).',
+    note=EXACT + ' for layer 1; ' + BITPRECISE + '; the composite 3e-6 bound for arbitrary triples rests on the margin argument (entry error 2e-7, normalisation error <= 1e-6) and the bounded sweeps. ' + TOOLS,
+    assumptions=[EXACT, BITPRECISE, 'per-pixel loop of yuv_to_rgb is a map of the kernels (proved structurally under C11)'],
+    not_decided=['3e-6 for all (Y,U,V) triples simultaneously: monolithic bit-precise query did not finish in 26 min; swept per plane only'],
+    design_ref='DESIGN.md §5 C01')
+
+# ------------------------------------------------------------------------------------------- C02
+def plan_c02(tier, seed):
+    hs = [H(n, domain='v: every f32 in [-2,2]', desc='|code - clamp(range*v+black,0,max)| <= 0.5 + 1e-6*2^n, ideal exact in f64') for n in depth_names('quant_luma', 'thorough')]
+    hs += [H(n, domain='v: every f32 in [-2,2]', desc='chroma quantiser incl. the full-range -0.5 special case') for n in depth_names('quant_chroma', 'thorough')]
+    hs += [H(n, domain='v: all 2^32 f32 bit patterns', desc='emitted luma and chroma codes <= 2^n-1') for n in depth_names('codes_valid', 'thorough')]
+    hs += [H(f'encode_{m}', domain='input-free', desc='every f32 entry of the real get_rgb_to_yuv_matrix within 6e-8 of the H.273 closed form (f64)') for m in MATS]
+    return {'verus': [('u_color', {})],
+            'kani': [{'crate_dir': '', 'inject': [YR, KC], 'harnesses': hs}]}
+reg('C02', plan=plan_c02, level='proof', min_obligations=400,
+    title='RGB->YUV encoding rounds to the nearest H.273 code',
+    technique='Kani function-level proofs of the real quantiser over every f32 (round, saturating cast, clamp, special case) against the exact f64 ideal; Verus: encode matrix = H.273 (exact), output config/dimensions by plane-loop contracts',
+    text='Complete bit-precise proof (Kani, loop-free, v symbolic over every f32 in [-2,2] and, for validity, over all 2^32 bit patterns) that from_f32_luma/from_f32_chroma with the real get_scale_offset '
+         'produce the code nearest to range*v+black clamped to [0,2^n-1], all depths 8..16, both ranges, u8/u16; all 7 real encode matrices are bit-precisely within 6e-8 of the H.273 closed form and '
+         'equal it exactly under real semantics (Verus, symbolic in Kr,Kb); the output carries the requested config and dimensions (Verus contract on ypbpr_to_ycbcr / Yuv::new). '
+         'Not proved: f32 rounding of the 3x3 product feeding the quantiser for arbitrary RGB triples.',
+    note=EXACT + ' for the matrix layer; ' + BITPRECISE + '. ' + TOOLS,
+    assumptions=[EXACT, BITPRECISE, 'v_frame accessor contracts (see C07/C11)'],
+    not_decided=['f32 rounding of the 3x3 product for arbitrary RGB triples (matrix entries are pinned to 6e-8; the product adds <= 3 roundings)'],
+    design_ref='DESIGN.md §5 C02')
+
+# ------------------------------------------------------------------------------------------- C08
+def plan_c08(tier, seed):
+    hs = [H(n, domain='all codes <= 2^n-1', desc='from_f32_luma(to_f32_luma(c)) == clamp(c,16k,235k) (full: == c)') for n in depth_names('rt_luma', 'thorough')]
+    hs += [H(n, domain='all codes <= 2^n-1', desc='from_f32_chroma(to_f32_chroma(c)) == clamp(c,16k,240k) (full: == c, or 0 -> 1)') for n in depth_names('rt_chroma', 'thorough')]
+    sel = sweep_selection('roundtrip', tier, seed)
+    names, txt = sweep_harness_text('roundtrip', sel)
+    hs += [H(n, bounded='one plane symbolic over all codes, other two fixed at the companions in the name', domain=n,
+             desc='real composite from_f32 . fwd.mul_arr . inv.mul_arr . to_f32 returns the (legal-range-clamped) codes') for n in names]
+    return {'verus': [('u_color', {})],
+            'kani': [{'crate_dir': '', 'inject': [YR, KC], 'append': [('k_color.rs', txt)], 'harnesses': hs}]}
+reg('C08', plan=plan_c08, level='proof', min_obligations=400,
+    title='YUV->RGB->YUV is a lossless code round trip',
+    technique='Kani: complete bit-precise proof that code->float->code is the identity per plane (all codes, depths, ranges, storage); Verus: fwd*inv = I exactly for the 7 matrices; bounded per-plane sweeps through the real 3x3 composite',
+    text='Complete bit-precise proof per plane that the real to_f32_* / from_f32_* pair returns every code (after legal-range clamping; full-range chroma 0 may become 1), for all depths 8..16, both ranges, u8/u16; '
+         'exact-real proof (Verus) that the decode matrix is the two-sided inverse of the encode matrix for the 7 standards; bounded per-plane sweeps of the real composite including both matrix products. '
+         'Not proved: exact losslessness for all (Y,U,V) triples simultaneously (cross-plane f32 rounding) - only swept.',
+    note=EXACT + ' for fwd*inv=I; ' + BITPRECISE + '; cross-plane rounding for arbitrary triples is a margin argument (composite error ~1e-6 << 0.5/65535), not machine-checked. ' + TOOLS,
+    assumptions=[EXACT, BITPRECISE],
+    not_decided=['all 2^24..2^48 triples simultaneously through both 3x3 products (monolithic query intractable; per-plane sweeps only)'],
+    design_ref='DESIGN.md §5 C08')
+
+# ------------------------------------------------------------------------------------------- C07 / C11 / C12 (U-planes)
+PLANES_ASSUME = ['v_frame accessor contracts (Plane::new for xpad=ypad=0, data_origin(_mut), PlaneData::len, Plane::iter via any_sample_exceeds) transcribed from their bodies, not verified',
+                 'allocation sizes fit usize: (width+64)*height <= usize::MAX (precondition of Plane::new)',
+                 '64-bit target (size_of usize == 8); subsampling shifts < 64; bit depth 8..16',
+                 'scalar float kernels are deterministic functions (uninterpreted in E1)',
+                 '<[T]>::get_unchecked(_mut) safety contract is index < len']
+def plan_c07(tier, seed):
+    hs = math_totality_harnesses()
+    return {'verus': [('u_planes', {}), ('u_ctor', {})],
+            'kani': [{'crate_dir': 'yuvxyb-math', 'inject': MATH_INJECT, 'harnesses': hs},
+                     {'crate_dir': '', 'inject': [KT], 'harnesses': transfer_total_harnesses()}]}
+reg('C07', plan=plan_c07, level='proof', min_obligations=100,
+    title='No safe API call sequence reaches undefined behaviour',
+    technique='Verus loop invariants on the real plane loops: every get_unchecked(_mut) index proved < len for unbounded geometry from the Yuv::new contract; Kani: nothing non-finite/out-of-range reaches a float->int conversion for any f32',
+    text='Unbounded proof (Verus) over all frame geometries (any width/height/stride/origin/padding/subsampling the constructor accepts, any usize): Yuv::new returns Ok only for frames satisfying yuv_wf '
+         '(chroma planes cover the luma plane at the declared subsampling, every plane fits its buffer), and under yuv_wf each of the 4+4 unchecked plane accesses of ycbcr_to_ypbpr / ypbpr_to_ycbcr is in bounds '
+         '(the stub precondition IS the std safety contract) with no usize overflow; the float-image constructors guarantee data.len() == width*height without wrap-around. '
+         'Complete bit-precise proof (Kani) that exp2/powf/expf and all 20 transfer-curve scalars never feed a NaN/inf/out-of-range value to a float->int conversion, for every f32 bit pattern. '
+         'The from_raw_parts_mut flattening in transfer.rs is checked only by a bounded Kani harness (len <= 3).',
+    note='Assumed: ' + '; '.join(PLANES_ASSUME) + '. unsafe code inside v_frame/aligned-vec is trusted. ' + TOOLS,
+    assumptions=PLANES_ASSUME + [BITPRECISE],
+    not_decided=['from_raw_parts_mut flatten for len > 3 (bounded harness only)', 'unsafe code inside v_frame / aligned-vec'],
+    design_ref='DESIGN.md §5 C07')
+
+def plan_c11(tier, seed):
+    return {'verus': [('u_planes', {}), ('u_ctor', {})]}
+reg('C11', plan=plan_c11, level='proof', min_obligations=40,
+    title='Conversions are pointwise, order-preserving and layout-independent',
+    technique='Verus loop invariants: the output of each plane loop is stated as a function of origin-relative samples (row-major index map, chroma index (y>>ss_y, x>>ss_x)), for all geometries',
+    text='Unbounded proof (Verus) for the two YUV plane loops: ycbcr_to_ypbpr returns width*height pixels in row-major order where pixel (x,y) is the kernel applied to Y(x,y) and the chroma samples at '
+         '(x>>ss_x, y>>ss_y) of the origin-relative planes - hence independent of stride, padding and padding contents, and equal to the 1x1 conversion; ypbpr_to_ycbcr produces planes of size (w>>ss_x, h>>ss_y) '
+         'whose luma plane is the pointwise quantisation of the input; sources are borrowed immutably (frame condition by typing); results are spec functions of the inputs (determinism). '
+         'Width/height pass-through of the float-image conversions by contracts on the constructors/accessors. Chroma-block membership of each subsampled chroma sample and the Vec<[f32;3]> iterator loops '
+         '(transfer, primaries, XYB, HSL) are not under contract here.',
+    note='Assumed: ' + '; '.join(PLANES_ASSUME) + '. ' + TOOLS,
+    assumptions=PLANES_ASSUME,
+    not_decided=['each subsampled chroma sample equals the chroma of a pixel of its own block (last_uv_pos skipping) - not proved', 'pointwise-ness of the Vec<[f32;3]> per-pixel loops in transfer/primaries/XYB/HSL (iterator loops Verus cannot ingest)'],
+    design_ref='DESIGN.md §5 C11')
+
+def plan_c12(tier, seed):
+    return {'verus': [('u_planes', {'stage': 'ctor'}), ('u_ctor', {})]}
+reg('C12', plan=plan_c12, level='proof', min_obligations=40,
+    title='Constructors accept exactly the well-formed images and keep them verbatim',
+    technique='Verus postconditions on the real constructors: Ok <=> well-formedness predicate written from the statement, error variant by priority, verbatim storage',
+    text='Unbounded proof (Verus) over all frames and configs: Yuv::new returns Ok iff decimation matches, luma dims are multiples of the subsampling, chroma planes have the implied size, every plane fits its buffer, and '
+         '(16-bit storage, depth < 16) no visible sample exceeds 2^n-1; the error is SubsamplingMismatch / InvalidLumaWidth / InvalidLumaHeight / InvalidData in the documented priority; on Ok the frame is stored verbatim '
+         'and the config is the input config with Unspecified fields resolved. Rgb/LinearRgb/Xyb/Hsl::new return Ok iff data.len() == width*height (mathematical product, no wrap-around), else ResolutionMismatch; accessors return the stored values.',
+    note='Assumed: the cut iterator expression of the sample-range check behaves as its stub says (true iff a visible sample exceeds max_value); ' + '; '.join(PLANES_ASSUME[2:3]) + '. ' + TOOLS,
+    assumptions=['R-anycut stub any_sample_exceeds', '64-bit target; subsampling shifts < 64; bit depth 8..16'],
+    design_ref='DESIGN.md §5 C12')
+
+KT = ('src/yuv_rgb/transfer.rs', 'k_transfer.rs', 'verif_kani_transfer')
+CURVES = ['log100_oetf', 'log100_inverse_oetf', 'log316_oetf', 'log316_inverse_oetf', 'rec_1886_eotf', 'rec_1886_inverse_eotf',
+          'rec_470m_oetf', 'rec_470m_inverse_oetf', 'rec_470bg_oetf', 'rec_470bg_inverse_oetf', 'rec_709_oetf', 'rec_709_inverse_oetf',
+          'xvycc_eotf', 'xvycc_inverse_eotf', 'srgb_eotf', 'srgb_inverse_eotf', 'st_2084_inverse_oetf', 'st_2084_oetf',
+          'arib_b67_inverse_oetf', 'arib_b67_oetf']
+def transfer_total_harnesses():
+    return [H(f'total_{c}', domain='x: all 2^32 f32 bit patterns', desc=f'{c}: no panic/overflow/invalid float->int for any f32; finite on [0,1]') for c in CURVES] + \
+           [H(f'flatten_len_{n}', bounded=f'Vec length == {n}', domain=f'{n} pixels, content symbolic in [0,0.5]^3', desc='from_raw_parts_mut flatten in bounds (pointer checks) and pointwise') for n in range(4)]
